@@ -5,7 +5,7 @@ From Coq Require Import List Arith Bool NArith.
 From Conductor Require Import Model.Loader Model.Planner Model.Exec Model.RunCase
   Proofs.ExecInv Proofs.ExecTheorems Proofs.ExecMain Proofs.PlannerInv Proofs.PlannerOrder Proofs.ComposeExec.
 From Conductor Require Import Gen.Generated Proofs.GenTie.
-From Conductor Require Import Proofs.WfPlanDec.
+From Conductor Require Import Proofs.WfPlanDec Lib.Str Model.Env Proofs.SpawnEnv Proofs.GenTieEnv.
 Import ListNotations.
 
 (* [infl s] = operations in flight; [procs s] = (operation, COND_SLOT) of the running processes.
@@ -46,6 +46,36 @@ Theorem C04_limits_end_to_end :
     (forall o, In o (infl s) <-> (exists sl, In (EStart o sl) (trace s)) /\ forall rc, ~ In (EFinish o rc) (trace s)).
 Proof. exact cond_run_limits. Qed.
 Print Assumptions C04_limits_end_to_end.
+
+(* "COND_SLOT is unset exactly when the task is not parallelizable or JOBS is 1", end to end and in terms of the environment
+   variable itself: for every process the executor has running, whatever environment Conductor inherited (also one that
+   already defines COND_SLOT: D20), whatever the other values -- the variable start_execution hands over is unset exactly then,
+   and otherwise holds the decimal slot number, which is below JOBS. *)
+Theorem C04_cond_slot_variable_end_to_end :
+  forall fuel tasks c loaded ps r,
+  cond_run fuel tasks c = ORun loaded ps r -> 1 <= c_jobs c ->
+  let pl := plan_of ps in let orc := oracle_of pl c in let jobs := c_jobs c in
+  let task o := op_task (op_at (ops ps) o) in let par t := par_of (info_of tasks) t in
+  forall s, reachable pl jobs (c_stop c) orc s ->
+  forall o sl, In (o, sl) (procs s) ->
+  forall inherited out deps name,
+    let var := env_get cfg_SLOT_ENV_VARIABLE_NAME (spawn_env inherited out deps name (option_map N.of_nat sl)) in
+    (var = None <-> (par (task o) = false \/ jobs <= 1)) /\
+    (forall v, var = Some v -> exists n, sl = Some n /\ n < jobs /\ v = dec (N.of_nat n)).
+Proof.
+  intros fuel tasks c loaded ps r H Hj pl orc jobs task par s Hr o sl Hin inherited out deps name var.
+  destruct (cond_run_limits fuel tasks c loaded ps r H Hj s Hr) as (_ & _ & _ & _ & Hlt & Hnone & _).
+  destruct (spawn_env_contract gen_env_shape inherited out deps name (option_map N.of_nat sl)) as (_ & _ & _ & Hv & _).
+  fold var in Hv. split.
+  - pose proof (Hnone o sl Hin) as Hi. rewrite Hv. destruct sl as [n|]; cbn [option_map]; split; intro A.
+    + discriminate.
+    + apply Hi in A. discriminate.
+    + apply Hi. reflexivity.
+    + reflexivity.
+  - intros v Ev. rewrite Hv in Ev. destruct sl as [n|]; cbn in Ev; [|discriminate]. inversion Ev; subst v.
+    exists n. split; [reflexivity|]. split; [|reflexivity]. apply Hlt. unfold slots_of. apply in_flat_map. exists (o, Some n). split; [exact Hin | left; reflexivity].
+Qed.
+Print Assumptions C04_cond_slot_variable_end_to_end.
 
 (* Tie to the source, re-checked on every run: the launch conditions of the model are the ones
    TRANSLATED from Executor._launch_ops_if_able in the working tree (Gen/Generated.v gen_gate_open) *)
